@@ -91,7 +91,7 @@ def r_dimension(chk, P, tier):
 def run(chk, tier):
     P = Prog("default")
     chk.configs.add("default")
-    for r in (r_ord, r_projections, r_glue, r_passthrough, r_day_tables, r_dimension, r_at_transition, r_days_since_epoch, r_offset_sign_shared):
+    for r in (r_ord, r_projections, r_glue, r_passthrough, r_day_tables, r_dimension, r_at_transition, r_days_since_epoch, r_offset_sign_shared, r_rule_day_time):
         chk.guarded(r, P, tier)
     chk.assume("which transition applies to an instant, gap/fold classification on the exact second, the hemisphere/sign branches and rule-day arithmetic are "
                "comparisons between runtime quantities and are NOT decided; only the ordering of the two fold candidates and the contract glue are")
@@ -409,3 +409,40 @@ def r_days_since_epoch(chk, P, tier):
     chk.expect(branch_consts[True] and max(branch_consts[True]) <= 1970 and branch_consts[False] and min(branch_consts[False]) >= 1969, "numerators keep their sign",
                "division numerators change sign inside a branch: upper branch subtracts %s (must be <= 1970), lower branch %s (must be >= 1969)" % (sorted(branch_consts[True]), sorted(branch_consts[False])), loc=P.loc(fn))
     chk.expect(146097 % 7 == 0 and 400 * 365 + 100 - 4 + 1 == 146097, "period", "arithmetic")
+
+
+def r_rule_day_time(chk, P, tier):
+    """a POSIX rule has two (day, time-of-day) pairs: (dst_start, dst_start_time) and (dst_end, dst_end_time). An instant computed from the start day and the
+    end time (or the reverse) belongs to neither transition. Integer locals are tagged with the rule fields they derive from; comparisons (booleans) may
+    relate both transitions, instants may not mix them."""
+    from rules import tag_locals
+    at = T + "rule::AlternateTime"
+    names = [f["name"] for f in P.adts[at]["variants"][0]["fields"]]
+    tagmap = {names.index("dst_start"): "start-day", names.index("dst_start_time"): "start-time", names.index("dst_end"): "end-day", names.index("dst_end_time"): "end-time"}
+    chk.rule("PAIR.rule_day_time", "in both AlternateTime lookups every instant is computed from the day and the time of day of the same transition (dst_start with dst_start_time, dst_end with dst_end_time)", floor=10)
+
+    def field_tag(tys, idx):
+        base = tys.lstrip("&").replace("mut ", "")
+        return tagmap.get(idx) if base == at else None
+    for fn in (at + "::find_local_time_type", at + "::find_local_time_type_from_local"):
+        m = P.fn(fn)["mir"]
+        tags, of = tag_locals(P, fn, field_tag)
+        good = {"start": 0, "end": 0}
+        mixes = []
+        for i, tg in sorted(tags.items()):
+            ty = P.ty_s(m["locals"][i])
+            if ty not in ("i64", "i32", "i128", "u64", "(i64, bool)", "(i32, bool)"):
+                continue
+            four = {"start-day", "start-time", "end-day", "end-time"} <= tg     # a relation between the two complete instants (e.g. their distance) is not a mix
+            mixed = not four and (("start-day" in tg and "end-time" in tg) or ("end-day" in tg and "start-time" in tg))
+            if mixed:
+                mixes.append("_%d (%s) from %s" % (i, ty, sorted(tg)))
+            elif {"start-day", "start-time"} <= tg:
+                good["start"] += 1
+            elif {"end-day", "end-time"} <= tg:
+                good["end"] += 1
+        chk.expect(not mixes, "%s mixed" % fn.split("::")[-1], "%s: %d integer locals combine the day of one transition with the time of day of the other, first: %s" % (fn, len(mixes), mixes[:2]), loc=P.loc(fn))
+        for k, v in good.items():
+            chk.expect(v >= 1, "%s %s instant" % (fn.split("::")[-1], k), "%s: no integer local combines the %s day with the %s time (anchor lost)" % (fn, k, k), loc=P.loc(fn))
+            for _ in range(min(v, 2) - 1):
+                chk.ok("%s %s instant+" % (fn.split("::")[-1], k))
